@@ -86,6 +86,8 @@ pub fn fault_call(ch: &mut Chooser, kind: &str) -> Option<(Expr, Vec<Expr>)> {
             5 => (var("/"), vec![app("-", vec![Expr::Int(3), Expr::Int(3)])]),
             _ => (var("/"), vec![Expr::Ratio(1, 2), Expr::Int(0)]),
         },
+        // the unbound variable is the operator of a call (one time in three); otherwise a plain read (not a call)
+        "unbound-read" if ch.chance(1, 3) => (Expr::Marked(Box::new(var("nowhere-bound"))), if ch.chance(1, 2) { vec![Expr::Int(1)] } else { vec![] }),
         _ => return None,
     })
 }
@@ -93,7 +95,8 @@ pub fn fault_call(ch: &mut Chooser, kind: &str) -> Option<(Expr, Vec<Expr>)> {
 fn non_call_fault(kind: &str) -> Expr {
     match kind {
         "unbound-read" => Expr::Marked(Box::new(var("nowhere-bound"))),
-        _ => Expr::Set("nowhere-bound".into(), Box::new(Expr::Int(1))),
+        // the value expression has an effect of its own: it is evaluated before the assignment can fail (r7rs 4.1.6)
+        _ => Expr::Set("nowhere-bound".into(), Box::new(Expr::Tick(82, Box::new(Expr::Int(1))))),
     }
 }
 
